@@ -9,6 +9,7 @@ ids are arbitrary integers and may even repeat (cover is stated on multisets).
 -/
 import KafkaVerif.Lemmas.GroupBalancer
 import KafkaVerif.Lemmas.RackAffinity
+import KafkaVerif.Gen.GroupBalancerSel
 
 namespace KV.C14
 open KV.GroupBalancer KV.Spec.GroupAssign
@@ -26,6 +27,36 @@ example : rangeAssign exMembers exParts 1 10 = [0] ∧ rangeAssign exMembers exP
     rangeAssign exMembers exParts 1 30 = [3, 4] ∧ rangeAssign exMembers exParts 0 20 = [0] := by decide
 example : rrAssign exMembers exParts 1 10 = [0, 3] ∧ rrAssign exMembers exParts 1 20 = [1, 4] ∧
     rrAssign exMembers exParts 1 30 = [2] := by decide
+
+/-! ## 0b. Regenerated tie: the model's predicates are the ones written in groupbalancer.go
+(`Gen/GroupBalancerSel.lean` is re-emitted from the source text by go/extract on every run) -/
+
+theorem range_sel_regenerated (M P i j : Nat) :
+    rangeSel M P i j = Gen.GroupBalancer.rangeCond (partitionIndex := j)
+      (minIndex := Gen.GroupBalancer.rangeMin (memberIndex := i) (partitionCount := P) (memberCount := M))
+      (maxIndex := Gen.GroupBalancer.rangeMax (memberIndex := i) (partitionCount := P) (memberCount := M)) := rfl
+
+theorem rr_sel_regenerated (M i j : Nat) :
+    rrSel M i j = Gen.GroupBalancer.rrCond (partitionIndex := j) (memberCount := M) (memberIndex := i) := rfl
+
+/-- `sortById` meets the contract of `sort.Slice` for the comparator written in `findMembersByTopic`: the result is
+a permutation without inversions -/
+theorem sort_regenerated (l : List Member) :
+    (sortById l).Perm l ∧
+    (sortById l).Pairwise (fun a b => Gen.GroupBalancer.sortLess (members_i_ID := b.id) (members_j_ID := a.id) = false) := by
+  refine ⟨sortById_perm l, (sortById_sorted l).imp ?_⟩
+  intro a b h
+  simp [Gen.GroupBalancer.sortLess]; omega
+
+/-- the arithmetic of `assignTopic` as written in the source is the arithmetic of `rackAssignTopic` / `zoneAlloc` -/
+theorem rack_arith_regenerated (P M L C T lo rem : Nat) :
+    Gen.GroupBalancer.rackTarget (len_partitions := P) (len_members := M) = P / M ∧
+    Gen.GroupBalancer.rackRemainder (len_partitions := P) (len_members := M) = P % M ∧
+    Gen.GroupBalancer.rackPartsPerMember (len_parts := L) (len_consumers := C) = L / C ∧
+    Gen.GroupBalancer.cap_partsPerMember_targetPerMember (partsPerMember := L / C) (targetPerMember := T) = decide (L / C > T) ∧
+    Gen.GroupBalancer.cap_leftover_remainder (leftover := lo) (remainder := rem) = decide (lo > rem) ∧
+    Gen.GroupBalancer.cap_leftover_len_consumers (leftover := lo) (len_consumers := C) = decide (lo > C) :=
+  ⟨rfl, rfl, rfl, rfl, rfl, rfl⟩
 
 /-! ## 1. Range -/
 
